@@ -187,7 +187,8 @@ def stale_reads(g, variant):
             for w2 in ws:
                 if w2 is w or w2.node not in after_r:
                     continue
-                if w.node in succ_reachable(g, [w2.node]):
+                # ... and w is reached from w2 WITHOUT the read being executed again (in a loop the next iteration re-reads: fresh)
+                if w.node in succ_reachable(g, [w2.node], [r]):
                     out.append((w, w2, r))
     return out
 
